@@ -97,7 +97,8 @@ def gen_loop(rng, lbs=(0,), steps=(1,), min_trips_stages=True):
         emit(3, "}")
     if two_stores:
         emit(3, f'"memref.copy"(%buf{last}, %out2) {{tag = {t()} : i32}} : ({BUF}, {TILE}) -> ()')
-    emit(3, '"snax.cluster_sync_op"() : () -> ()')
+    if rng.random() < 0.6:
+        emit(3, '"snax.cluster_sync_op"() : () -> ()')      # (the barrier after the last stage may be left to the next iteration's first one)
     emit(2, "}")
     post = []
     if lb == 0 and step == 1 and rng.random() < 0.25:
@@ -124,7 +125,7 @@ def gen_loop(rng, lbs=(0,), steps=(1,), min_trips_stages=True):
 def run(pid: str, tier: str, seed: int, selftest=False, replay=None) -> int:
     rep = Report(pid, tier, seed)
     known = KnownFindings()
-    n = 160 if tier == "quick" else 2500
+    n = 220 if tier == "quick" else 3000
     xk = xdma_kernel_table()
     witnesses = KnownFindings().witnesses(pid)
     unsafe_known = True if os.environ.get("C15_FORCE_SAFE") else any(w.get("carve") == "lb0_step1_trips" for w in witnesses)
